@@ -4,7 +4,7 @@
 (* order over a covering set of relations, and cyclic programs.  TLC explores every placement order of each program.    *)
 EXTENDS Placer, TLC, Json
 
-CONSTANT Scope      \* "single" | "multi"
+CONSTANT Scope      \* "single" | "multi" | "arrays" | "random"
 Sizes == [a |-> <<3, 2>>, b |-> <<5, 7>>, c |-> <<1, 4>>, s |-> <<2, 6>>]
 Sides == {"Left", "Right", "Top", "Bottom"}
 AlignsFor(side) == IF side \in {"Left", "Right"} THEN {"Top", "Bottom"} ELSE {"Left", "Right"}
@@ -39,8 +39,20 @@ Arr(count, sep, inner, r, xy) == [name |-> "arr", cell |-> "a", count |-> count,
 Arrays == { Arr(n, sp, inner, r, <<4, -6>>) : n \in 1..4, sp \in {<<3, 0>>, <<0, 2>>, <<5, 7>>}, r \in Refl,
                                               inner \in { <<>>, <<[count |-> 3, sep |-> <<0, 11>>]>>, <<[count |-> 2, sep |-> <<13, 1>>]>> } }
 ArrayPrograms == { [cells |-> Sizes, insts |-> <<>>, arrays |-> <<a>>] : a \in Arrays }
+\* Random programs (Scope "random", NRand of them; TLC's RandomElement, reproducible under -seed): five instances, each
+\* placed absolutely or relative to a random EARLIER one by a random orthogonal relation, random reflections and cells,
+\* listed in a random order; TLC explores every placement interleaving of each
+CONSTANT NRand
+Perms5 == { p \in [1..5 -> 1..5] : \A i, j \in 1..5 : p[i] = p[j] => i = j }
+INames == << "i1", "i2", "i3", "i4", "i5" >>
+RandRel(k) == LET side == RandomElement(Sides) IN Rel(INames[RandomElement(1..(k - 1))], side, RandomElement(AlignsFor(side)), RandomElement(Seps))
+RandInst(k) == In(INames[k], RandomElement({"a", "b", "c", "s"}), RandomElement(Refl),
+                  IF k = 1 \/ RandomElement(1..5) = 1 THEN Abs(<<RandomElement(-9..9), RandomElement(-9..9)>>) ELSE RandRel(k))
+RandProgram(i) == [cells |-> Sizes, insts |-> Perm([k \in 1..5 |-> RandInst(k)], RandomElement(Perms5))]
+RandPrograms == { RandProgram(i) : i \in 1..NRand }
 WithNoArrays(P) == { [cells |-> x.cells, insts |-> x.insts, arrays |-> <<>>] : x \in P }
-Programs == IF Scope = "single" THEN WithNoArrays(SingleOK) ELSE IF Scope = "arrays" THEN ArrayPrograms ELSE WithNoArrays(Chains \cup Trees \cup Cycles)
+Programs == IF Scope = "single" THEN WithNoArrays(SingleOK) ELSE IF Scope = "arrays" THEN ArrayPrograms
+            ELSE IF Scope = "random" THEN WithNoArrays(RandPrograms) ELSE WithNoArrays(Chains \cup Trees \cup Cycles)
 Init == \E p \in Programs : PInitWith(p)
 Spec == Init /\ [][PNext]_pvars
 
